@@ -28,6 +28,7 @@ type Tree struct {
 	Children []*Tree  `json:"children,omitempty"`
 	Leaf     string   `json:"leaf,omitempty"` // stk:<kind>, edit, poacreate, withdraw, other:<n>
 	Rate     *big.Int `json:"rate,omitempty"` // scaled by 10^18; nil = absent
+	MSD      bool     `json:"msd,omitempty"`  // edit leaf: the message also sets a minimum self delegation (invisible to the model: no rule reads it)
 }
 
 var stkKinds = []string{"SCreateValidator", "SDelegate", "SUndelegate", "SBeginRedelegate", "SCancelUnbonding", "SUpdateParams"}
@@ -126,6 +127,10 @@ func (t *Tree) Msg() sdk.Msg {
 			d := decOf(t.Rate)
 			m.CommissionRate = &d
 		}
+		if t.MSD {
+			x := math.NewInt(5)
+			m.MinSelfDelegation = &x
+		}
 		return m
 	case t.Leaf == "poacreate":
 		m := &poa.MsgCreateValidator{}
@@ -223,6 +228,9 @@ func (g *treeGen) leaf() *Tree {
 			if r.Intn(6) != 0 {
 				t.Rate = pick(r, g.rates)
 			}
+			if t.Leaf == "edit" {
+				t.MSD = r.Intn(2) == 0 // with or without a rate
+			}
 			return t
 		}
 	}
@@ -314,6 +322,12 @@ func (t *Tree) MsgSigned(sender string, k *Keys) sdk.Msg {
 		if t.Rate != nil {
 			d := decOf(t.Rate)
 			m.CommissionRate = &d
+		}
+		if t.MSD {
+			// larger than any self delegation: x/staking refuses it when the message executes, so the unmodelled
+			// execution of the leaf leaves no trace in the projection
+			x, _ := math.NewIntFromString("1000000000000000000000000000000")
+			m.MinSelfDelegation = &x
 		}
 		return m
 	case "withdraw":
